@@ -68,6 +68,17 @@ CHECKS = {
         note='Trusted: mc/ref/pathwalk.py, the plain-Python reference validator of mc/gen/docs_c19.py (decides whether an edit is a fault), libxml2 for corpus '
              'applicability. Lazy resources are explored and counted, not judged. Known findings: no-namespace child under a default namespace gets an unresolvable path; '
              'text accepted in a single-xs:any content model.'),
+    'C14': dict(
+        technique='exhaustive enumeration of base models x single edits; exact language inclusion on the product of reference DFAs; witness replayed on the implementation',
+        text='Model checking by bounded exhaustive enumeration: every base content model with 2 nodes (8 ranges), 3 nodes (<= 2 non-default ranges, + one '
+             'wildcard leaf) and 4 nodes (<= 1) x EVERY single edit of a catalogue (occurrence moved to any of 8 ranges, drop/add/rename particle, keep one '
+             'choice branch, element<->wildcard, wrap/unwrap, swap, switch group kind) declared as a complexContent restriction, for both processors; plus '
+             'the complete product of 7 base x 8 derived attribute uses x types x attribute wildcards x 18 attribute sets. When the library accepts the '
+             'schema, inclusion L(R) <= L(B) is decided exactly on the product automaton (unbounded word length) and a shortest counter-word is replayed: '
+             'a violation needs the implementation itself to accept it for the derived type and reject it for the base type.',
+        design_ref='DESIGN.md section 2, C14',
+        note='Trusted: mc/ref/regex.py (Thompson NFA + subset construction), mc/gen/edits.py. Facet pairs and xs:redefine are not covered yet. '
+             'The converse (valid restriction refused) is not claimed. ~2.1k accepted-but-widening restrictions are listed per (base, derived, witness) in known_findings.jsonl.'),
 }
 
 PENDING_REASON = 'check not built yet in this session; the design (DESIGN.md section 2) applies bounded exhaustive exploration to it'
